@@ -44,6 +44,7 @@ const reflectPrelude = `(declare-fun rv_kind (Int) Int)
 (define-fun rv_uintkind ((k Int)) Bool (and (<= 7 k) (<= k 12)))
 (define-fun rv_floatkind ((k Int)) Bool (or (= k 13) (= k 14)))
 (assert (= (rv_kind 0) 0))
+(assert (= (rv_resolve 0) 0))
 `
 
 // reflect.Kind values
